@@ -883,12 +883,7 @@ func handleRestore(execCtx *rapidContext, restore *interop.Restore) (interop.Res
 }
 
 func startRuntimeAPI(ctx context.Context, execCtx *rapidContext) {
-	// Start Runtime API Server
-	err := execCtx.server.Listen()
-	if err != nil {
-		log.WithError(err).Panic("Runtime API Server failed to listen")
-	}
-
+	// Start Runtime API Server (the listener was bound in Start())
 	execCtx.server.Serve(ctx) // blocking until server exits
 
 	// Note, most of initialization code should run before blocking to receive START,
